@@ -100,7 +100,7 @@ CHECKS = {
                      'under two renderings; random sessions are validated back by TLC (BrowserTrace.tla).',
                 note='string keys; hashable non-NaN values; reserved keys excluded; corrupted-trace self-test in every run',
                 technique='TLA+ spec + TLC exhaustive session enumeration, replay, TLC batch trace validation'),
-    'C18': dict(engine='Stats', category='model_checking', design_ref='DESIGN.md §4 C18',
+    'C18': dict(engine='Stats', also=['Equal'], category='model_checking', design_ref='DESIGN.md §4 C18',
                 text='Stats.tla defines the three summaries as partitions / counts with counting invariants; every state TLC enumerates is evaluated '
                      'by the real classes, a sample through the real task pipeline; random bigger inputs are validated by TLC (StatsTrace.tla).',
                 note='stub TestResults; string labels; the empty summary is judged by vacuous truth (2 open findings keyed on the empty input)',
@@ -131,7 +131,7 @@ CHECKS = {
                 note='classify() (substring tests copied from scan.py) is a trusted abstraction function; run-level flags are not compared; replays judge '
                      'in Python (exception type, real-vs-real results)',
                 technique='TLA+ scanner state machine + TLC; fault enumeration of cut points on real and rendered listings; TLC trace validation'),
-    'C14': dict(engine='Persist', category='model_checking', design_ref='DESIGN.md §4 C14',
+    'C14': dict(engine='Persist', also=['Pipeline'], category='model_checking', design_ref='DESIGN.md §4 C14',
                 text='Persist.tla (per-task files absent/empty/partial/full/garbage; BeginWrite, WriteChunk, EndWrite, Crash, Fault, ReadAll) is '
                      'model-checked exhaustively; behaviours are replayed through the real write_env / read_env / Env.to_file / Env.from_file with '
                      'byte-exact crash injection; every truncation length of many pickled payloads and random histories are validated by TLC '
@@ -147,7 +147,7 @@ CHECKS = {
                      'validated by TLC (FactoryTrace.tla). Nine open findings (name-keyed caches conflate distinct requests).',
                 note='serialize is not varied; a fresh process is obtained by emptying Use._CACHE; the nine cache-conflation classes are open findings',
                 technique='TLA+ spec + refinement check + TLC enumeration, replay into the wrappers/factories, TLC batch trace validation'),
-    'C19': dict(engine='RunCmd', category='model_checking', design_ref='DESIGN.md §4 C19',
+    'C19': dict(engine='RunCmd', also=['PyTask'], category='model_checking', design_ref='DESIGN.md §4 C19',
                 text='RunCmd.tla (commands in order, stop at first non-zero, return codes, captured streams, per-task directory from the sanitized '
                      'name, invalid names rejected before any file is created) is model-checked; every command list and name list of the configuration '
                      'is executed on real RunTask objects with sh -c commands, directly and under the scheduler; random cases validated by TLC.',
@@ -174,6 +174,9 @@ ENGINES = {
     'RunCmd': dict(path='specs/RunCmd.tla', kind_free_text='command runner + task directory spec + RunCmdTrace.tla; conf_runcmd.py'),
     'EnvOps': dict(path='specs/EnvOps.tla', kind_free_text='Env.apply / set_status / get_status as a tree merge (+EnvOpsLaws.tla: laws of the merge, EnvOpsTrace.tla); run inside C01: only the clause "the applied update is readable and nothing else is lost" can raise a C01 violation; conf_envops.py'),
     'ParseLock': dict(path='specs/ParseLock.tla', kind_free_text='parser threads sharing the pyparsing grammar: lock / re-bind / read actions (+ParseLockMC.tla, ParseLockTrace.tla); detsched.py schedules real Parser threads; run inside C10; conf_parselock.py'),
+    'PyTask': dict(path='specs/PyTask.tla', kind_free_text='heap model of what a PythonTask / EvalTestTask may do to shared state (arguments, environment handed to the function, returned update) + PyTaskTrace.tla; observations only, run inside C19; conf_pytask.py'),
+    'Equal': dict(path='specs/Equal.tla', kind_free_text='exact-arithmetic model of check_bins / TestEqual / TestApproxEqual / TestMetadata + EqualTrace.tla; observations only, run inside C18; conf_equal.py'),
+    'Pipeline': dict(path='specs/Pipeline.tla', kind_free_text='`valjean run` stage by stage: arguments, job import and call, dependency closure, unique names, the two graphs, abstract scheduling, failed-tasks and environment files (+PipelineMC.tla, PipelineTrace.tla); observations only, run inside C14; conf_pipeline.py'),
     'RList': dict(path='specs/RList.tla', kind_free_text='reverse-indexed list under DepGraph (observations only, run inside C16) + RListTrace.tla; conf_rlist.py'),
     'Decide': dict(path='specs/Decide.tla', kind_free_text='decision function of the backend for one task, all inputs (serves C02, C04) + DecideTrace.tla; conf_decide.py'),
     'Student': dict(path='specs/Student.tla', kind_free_text='function-like TLA+ spec + StudentTrace.tla; harness/laws.py, conf_student.py'),
